@@ -1,7 +1,7 @@
 (* C03 - Run-to-completion: nested events are queued, FIFO, never interleaved.  Statements only. *)
 From Coq Require Import List Arith Bool ZArith.
 Import ListNotations.
-From PySM Require Import Impl.Engine Proofs.EngineFrame Proofs.EngineProofs Proofs.EngineRefine Proofs.EngineLog.
+From PySM Require Import Impl.Engine Proofs.EngineFrame Proofs.EngineProofs Proofs.EngineRefine Proofs.EngineLog Proofs.NonRtcProofs.
 
 (* while a transition is in progress (the lock is held) a send from any callback, at any phase and
    depth, only appends the event at the back of the queue and returns None *)
@@ -95,6 +95,31 @@ Definition depths (r : res pyres) : list nat :=
   | Ok c _ => flat_map (fun e => match e with ECall _ _ _ _ _ _ _ _ _ d => [d] | _ => [] end) (rev (log c))
   | _ => []
   end.
+(* ---- rtc=False ---- *)
+(* on an idle queue a send IS the processing of its own trigger, at once and before it returns, and
+   its value is that trigger's own result (the callback that sent it gets the result) *)
+Theorem C03_nonrtc_send_processes_its_trigger_at_once :
+  forall beh rm f td c, queue c = [] ->
+    send_nonrtc beh rm (S f) td c =
+      match trigger beh (send_nonrtc beh rm f) rm td (set_queue (enqueue td c) []) with
+      | Ok c2 r => Ok c2 (match r with Some v => v | None => no_res end)
+      | Exn c2 x => Exn c2 x
+      | Fuel => Fuel
+      end.
+Proof. exact nonrtc_send_processes_its_trigger_at_once. Qed.
+Print Assumptions C03_nonrtc_send_processes_its_trigger_at_once.
+
+(* depth first: everything a send issued at depth d runs - its own callbacks and those of the sends
+   they issue, to any nesting - is logged at depth >= d + 1 (so a chain of nested sends runs at growing
+   depth, unlike run-to-completion), and the depth is d again when it returns *)
+Theorem C03_nonrtc_runs_deeper :
+  forall beh rm f td c,
+    Rres (fun c c' => depth c' = depth c
+                      /\ exists l, log c' = l ++ log c /\ Forall (depth_ge (S (depth c))) l)
+         c (send_nonrtc beh rm f td c).
+Proof. exact nonrtc_runs_deeper. Qed.
+Print Assumptions C03_nonrtc_runs_deeper.
+
 Example C03_nonvacuous :
   depths (send ex_beh (ex_rm true) 9 {| td_ev := Some 0; td_tag := 0 |} (init_cfg (Some 0))) = [1; 1; 1]
   /\ depths (send ex_beh (ex_rm false) 9 {| td_ev := Some 0; td_tag := 0 |} (init_cfg (Some 0))) = [1; 2; 2].
